@@ -755,7 +755,7 @@ def _run_case(case, cfg):
     rep["leftover"] = leftover
     rep["paths"] = len(results)
     reached = False
-    if getattr(case, "must_terminate", False) and _REPLAYER[0] is not None:
+    if getattr(case, "must_terminate", False) and _REPLAYER[0] is not None and (time.time() - t_start) < budget * 0.7:
         # termination twin: a path that exceeded the unwinding bound is replayed once on the real code with inputs on
         # the grid Z/16 (no degenerate configurations) and the model's draws followed by real random numbers; if the real
         # code does not return within TERMINATION_LIMIT_S it does not terminate for these inputs
@@ -1163,7 +1163,7 @@ def _run_parallel(reports, jobs, cfg):
             p.start()
             cc.close()
             budget = _CASES[i].budget_s or cfg["case_budget_s"]
-            running[i] = (p, pc, time.time(), max(3 * budget, 240))
+            running[i] = (p, pc, time.time(), max(4 * budget, 420))
         done = []
         for i, (p, pc, t0, limit) in running.items():
             got = None
